@@ -30,9 +30,9 @@ func init() {
 
 // mapOrderExceptions: sites accepted although the classifier sees a call in map order.
 var mapOrderExceptions = map[string]string{
-	"coerceValue#1":   "stores keyed by field name; sibling fields are coerced in map order, which only a stateful custom scalar could observe (user-code nondeterminism)",
-	"valueFromAST#1":  "same as coerceValue: keyed stores, recursion only reaches scalar ParseLiteral callbacks",
-	"copyArgValue#1":  "pure structural copy, keyed stores",
+	"coerceValue#1":  "stores keyed by field name; sibling fields are coerced in map order, which only a stateful custom scalar could observe (user-code nondeterminism)",
+	"valueFromAST#1": "same as coerceValue: keyed stores, recursion only reaches scalar ParseLiteral callbacks",
+	"copyArgValue#1": "pure structural copy, keyed stores",
 }
 
 func c12MapOrder(c *core.Ctx, r *core.Reporter) {
@@ -451,6 +451,39 @@ func c12Sort(c *core.Ctx, r *core.Reporter) {
 	r.Check(reads["Distances"] && reads["Options"], "suggestionListResult.Less/total", less.Pos(),
 		"orders by distance, then by the option itself (total order on distinct options)",
 		"suggestionListResult.Less orders by distance only: options at equal distance keep the order in which they were collected from a map, so did-you-mean messages change from run to run")
+	// the tie-break compares the options themselves: comparing a function of them (lower-cased, trimmed, their length)
+	// leaves distinct options that the function maps to one value unordered, i.e. in map-iteration order
+	var through string
+	var tpos token.Pos
+	ast.Inspect(less.Body, func(x ast.Node) bool {
+		be, ok := x.(*ast.BinaryExpr)
+		if !ok || (be.Op != token.LSS && be.Op != token.GTR && be.Op != token.LEQ && be.Op != token.GEQ) {
+			return true
+		}
+		for _, side := range []ast.Expr{be.X, be.Y} {
+			call, isCall := ast.Unparen(side).(*ast.CallExpr)
+			if !isCall {
+				continue
+			}
+			mentions := false
+			ast.Inspect(call, func(y ast.Node) bool {
+				if se, ok := y.(*ast.SelectorExpr); ok && se.Sel.Name == "Options" {
+					mentions = true
+				}
+				return true
+			})
+			if f := core.CalleeObj(p.TypesInfo, call); mentions && f != nil && through == "" {
+				through = f.Pkg().Name() + "." + f.Name()
+				tpos = be.Pos()
+			}
+		}
+		return true
+	})
+	if through != "" {
+		r.Bad("suggestionListResult.Less/tie-break-on-option", tpos, "the tie-break of suggestionListResult.Less compares %s(option) instead of the options: two distinct options with the same image (names that differ only in case, say) compare equal both ways, sort.Sort leaves them in the order they were collected from a map, and the did-you-mean text changes from run to run", through)
+	} else {
+		r.OK("suggestionListResult.Less/tie-break-on-option", less.Pos(), "ties are broken on the option strings themselves")
+	}
 	// sortutil in gqlerrors and other sort.Slice users: Less functions given to sort.Slice must not be constant
 	n := 0
 	c.FuncDecls(func(rel string, pp *packagesPkg, fd *ast.FuncDecl) {
